@@ -233,6 +233,9 @@ PROPS["C17"] = {
 PROPS["C18"] = {
     "lean_module": "RaftVerif.Props.C18",
     "theorems": [
+        T("SV.stale_install_inert", "an InstallSnapshot of an older term writes nothing and leaves the whole volatile state - in particular the leader the server names - as it was"),
+        T("SV.stale_append_inert", "an AppendEntries of an older term likewise"),
+        T("SV.stale_vote_inert", "a RequestVote of an older term likewise"),
         T("RL.notify_alternates", "role-loop model: for every sequence of elections, step-downs and shutdown NotifyCh carries true,false,true,... with one message per gain or loss of leadership, and the last value says whether the server is leader now"),
     ],
     "engines": [cluster("C18", 200, 5000)],
